@@ -1,6 +1,16 @@
 //@file anchor=lorawan-device/src/mac/mod.rs
 // MAC-level helpers: arbitrary Configuration, invariant I-dr, snapshots, RNG models.
 use super::*;
+
+/// Every harness static carries a unique tag: Kani resolves a *constant* whose bytes equal a
+/// static's initial bytes to that static (rustc interns allocations by content), so writing to a
+/// `static mut FLAG: bool = false` silently changed constants such as `DR::_0` in the code under
+/// test (found on macs_r0_linkadr2, see DESIGN 9.4).  Unique initial content rules this out.
+#[repr(C)]
+pub(crate) struct Uq<T> {
+    pub magic: u64,
+    pub v: T,
+}
 pub(crate) use crate::region::verif_kani_lorawan_device_region_top as rt;
 
 pub(crate) fn any_dr() -> DR {
@@ -138,20 +148,20 @@ impl rand_core::RngCore for SliceRng {
 // per-property filter of check.py would then miss a violation whose assertion comes later.
 // vcheck! evaluates each assertion only on the paths where a nondeterministic selector equals
 // the assertion's source position: every assertion is decided independently of the others.
-pub(crate) static mut VSEL: u32 = 0;
-pub(crate) static mut VSET: bool = false;
+pub(crate) static mut VSEL: Uq<u32> = Uq { magic: 0x6C72760026DDDAE3, v: 0 };
+pub(crate) static mut VSET: Uq<bool> = Uq { magic: 0x6C72760035B142B5, v: false };
 /// must be called once at the start of every harness that uses vcheck! (statics persist between
 /// the tests of one native playback process, so lazy initialisation would desynchronise replays)
 pub(crate) fn vinit() {
     unsafe {
-        VSEL = kani::any();
-        VSET = true;
+        VSEL.v = kani::any();
+        VSET.v = true;
     }
 }
 pub(crate) fn vsel() -> u32 {
     unsafe {
-        assert!(VSET, "harness bug: vinit() not called before vcheck!");
-        VSEL
+        assert!(VSET.v, "harness bug: vinit() not called before vcheck!");
+        VSEL.v
     }
 }
 #[macro_export]
